@@ -129,7 +129,11 @@ def diff(before, after):
     changed_children = set()
     keys = set(before) | set(after)
     for k in keys:
-        if (k in before) != (k in after):
+        x, y = before.get(k), after.get(k)
+        if x is None or y is None or x[0] != y[0] or \
+                (x[0] != 'd' and x != y):
+            # created, removed or replaced (rename over an existing name,
+            # rewrite): the parent directory's mtime legitimately moves
             changed_children.add(os.path.dirname(k) if '/' in k else '')
     out = []
     for k in sorted(keys):
